@@ -234,6 +234,27 @@ class C02(StructBase):
         for _ in range(sz["rand"]):
             fn = all_ops if rng.random() < 0.3 else self.opsfn
             yield gen.random_history(rng, real, fn, rng.randint(3, sz["rlen"]))
+        # a universe with many members (sizes at which an 'optimised' membership test would switch on):
+        # members leave from either side and come back from either side
+        for _ in range(2 if tier == "quick" else 12):
+            n = rng.randint(50, 75)
+            lines = ["reset"] + ["vertex V"] * n
+            lines.append("universe m=%s" % ",".join("V%d" % i for i in range(n)))
+            lines.append("universe")
+            gone = []
+            for k in range(45):
+                u = n if rng.random() < 0.85 else n + 1
+                if gone and rng.random() < 0.5:
+                    i = rng.choice(gone)
+                    lines.append(rng.choice(["vadd V%d V%d" % (i, u), "uadd V%d V%d" % (u, i)]))
+                else:
+                    i = rng.randrange(n)
+                    lines.append(rng.choice(["vrem V%d V%d" % (i, u), "urem V%d V%d" % (u, i), "vrem V%d V%d" % (i, u)]))
+                    gone.append(i)
+                if k % 9 == 8:
+                    lines.append("obs")
+            lines.append("obs")
+            yield lines, [real.step(l) for l in lines]
 
     def pre(self, real, line):
         return snap(real)
